@@ -270,11 +270,10 @@ class SimClock:
                 self._patches.append((mod, name, getattr(mod, name)))
                 setattr(mod, name, val)
 
-        patch(cc, 'utc_now_datetime', now_dt)
-        patch(tu, 'utc_now_datetime', now_dt)
-        patch(tu, 'utc_now_epoch', now_epoch)
-        patch(csep, 'utc_now_datetime', now_dt)
-        patch(csep, 'utc_now_epoch', now_epoch)
+        # The library's own utc_now_datetime() / utc_now_epoch() keep running: only the `datetime` name they look up in
+        # csep.utils.time_utils is replaced by a module proxy whose datetime class reads the simulated instant in
+        # now() / utcnow(). (Replacing the functions themselves would hide the code under test behind the seam.)
+        patch(tu, 'datetime', _DateTimeModule())
         patch(cf, 'time', _Time())
         patch(ce, 'time', _Time())
         patch(csep, 'time', _Time())
